@@ -70,6 +70,10 @@ claimed = {
    text="Deterministic simulation of the Logger with producers and filterers as simulated goroutines (the select in the logger goroutine is decided by the seeded scheduler): sequential histories are compared exactly with a reference ring after each quiescence; concurrent histories are checked for membership, matching, duplicates, capacity, and for a single log order consistent with per-producer order, real-time order and the order inside every Filter result (cycle detection), incl. no skipped entry forced between two returned ones; convergence after logging stops and absence of blocked calls are decided at quiescence.",
    note="Trusts the instrumenter and scheduler. Resize is not part of the statement and not exercised.",
    technique="deterministic simulation: seeded interleavings of Log/Filter callers; reference ring (exact) and order-graph checker (concurrent)"),
+ "C19": dict(level="exploration", ref="§3.7, §4 C19",
+   text="Deterministic simulation under the Go race detector: only go9p and the standard library are race-instrumented; the scheduler runtime and the harness are compiled with -race=false and every park/release (and synctest.Wait) runs between runtime.RaceDisable/RaceEnable, so the serialising scheduler adds no happens-before edge and the detector sees exactly the library's own synchronisation (plus go statements and transport write->read, as with sockets) while the schedule stays seeded. Workloads: pipelined requests on distinct fids answered from several goroutines, flushes at every life stage, a Tversion at session start, one client shared by 2..8 goroutines against Ufs with all walks starting from the shared root fid, connections opened and dropped (quiescent) while others are busy. A report stops the child (halt_on_error) and is classified by the innermost go9p frames of both stacks.",
+   note="Trusts the race detector and the claim that RaceDisable hides the scheduler (checked by mutants: unlocked fid table / statistics are reported, the locked originals are clean). Harness-only goroutines are ordered among themselves through one private address; a scripted Flush hook publishes the edge a real implementation's own lock would create.",
+   technique="deterministic simulation in the race build: seeded schedules with the scheduler hidden from the race detector"),
 }
 na = {
  "C01": "pure function of (fields, dialect): no schedule, clock, fault or interleaving; deterministic simulation does not apply (DESIGN.md §1)",
